@@ -210,23 +210,8 @@ def run(chk):
                             model_expect.append(encode_result(st, r, [sf]))
                             model_info.append(dict(length=L, le=le, start=start, size=w, payload=d.hex(), float=True))
 
-    # ---------- part 3: placements that leave the frame (tie only; no property claim) ----------
-    for _ in range(300 if not thorough else 3000):
-        L = rng.choice([1, 2, 3, 8])
-        nbits = 8 * L
-        le = rng.random() < 0.5
-        w = rng.randrange(1, 20)
-        start = rng.randrange(0, nbits + 4)
-        fr = C.Frame("f", size=L)
-        s = C.Signal("u", start_bit=start, size=w, is_little_endian=le, is_signed=rng.random() < 0.5)
-        fr.add_signal(s)
-        d = bytes(rng.randrange(256) for _ in range(L))
-        st, r = impl_unpack(fr, d)
-        chk.count("outside-frame" if start + w > nbits else "inside-frame")
-        model_lines.append(core.fmt_case(102, [[L, 0, 0], list(d), sig_group(0, s)]))
-        model_expect.append(encode_result(st, r, [s]))
-        model_info.append(dict(length=L, le=le, start=start, size=w, payload=d.hex(), outside=True))
-
+    # (placements that leave the frame are outside the quantifier: they are neither judged nor tied - what the codec does with
+    #  them is not constrained by the property, and a change there must not raise an alarm)
     # ---------- part 3b: one Frame object decoded repeatedly while its definition is edited in place ----------
     # (decoding must read the CURRENT definition: no state may survive from an earlier decode of the same object)
     for _ in range(150 if not thorough else 3000):
